@@ -17,9 +17,16 @@ type Cache struct {
 
 // clientEntries holds entries of client details sent to the service.
 type clientEntries struct {
-	replayMap map[time.Time]replayCacheEntry
+	replayMap map[replayKey]replayCacheEntry
 	seqNumber int64
 	subKey    types.EncryptionKey
+}
+
+// replayKey identifies an authenticator among those of one client: the client time and the service it was sent to.
+// The same client time presented to two services must be tracked as two entries.
+type replayKey struct {
+	cTime time.Time
+	sName string
 }
 
 // Cache entry tracking client time values of tickets sent to the service.
@@ -36,11 +43,11 @@ func (c *Cache) getClientEntries(cname types.PrincipalName) (clientEntries, bool
 	return ce, ok
 }
 
-func (c *Cache) getClientEntry(cname types.PrincipalName, t time.Time) (replayCacheEntry, bool) {
+func (c *Cache) getClientEntry(cname, sname types.PrincipalName, t time.Time) (replayCacheEntry, bool) {
 	if ce, ok := c.getClientEntries(cname); ok {
 		c.mux.RLock()
 		defer c.mux.RUnlock()
-		if e, ok := ce.replayMap[t]; ok {
+		if e, ok := ce.replayMap[replayKey{t, sname.PrincipalNameString()}]; ok {
 			return e, true
 		}
 	}
@@ -85,13 +92,13 @@ func (c *Cache) addEntry(sname types.PrincipalName, a types.Authenticator) {
 		cTime:         ct,
 	}
 	if ce, ok := c.entries[a.CName.PrincipalNameString()]; ok {
-		ce.replayMap[ct] = e
+		ce.replayMap[replayKey{ct, sname.PrincipalNameString()}] = e
 		ce.seqNumber = a.SeqNumber
 		ce.subKey = a.SubKey
 	} else {
 		c.entries[a.CName.PrincipalNameString()] = clientEntries{
-			replayMap: map[time.Time]replayCacheEntry{
-				ct: e,
+			replayMap: map[replayKey]replayCacheEntry{
+				{ct, sname.PrincipalNameString()}: e,
 			},
 			seqNumber: a.SeqNumber,
 			subKey:    a.SubKey,
@@ -123,7 +130,7 @@ func (c *Cache) IsReplay(sname types.PrincipalName, a types.Authenticator) bool 
 	c.mux.Lock()
 	defer c.mux.Unlock()
 	if ce, ok := c.entries[a.CName.PrincipalNameString()]; ok {
-		if e, ok := ce.replayMap[ct]; ok {
+		if e, ok := ce.replayMap[replayKey{ct, sname.PrincipalNameString()}]; ok {
 			if e.sName.Equal(sname) {
 				return true
 			}
